@@ -103,6 +103,7 @@ func (fsm *stateMachine) runLoop() {
 }
 
 func (fsm *stateMachine) onApply(t fsmApply) {
+	verifPointFSM(fsm, "fsm.beforeApply")
 	// process all entries before t.neHead from log
 	commitIndex := t.log.LastIndex()
 	front := commitIndex + 1
@@ -126,6 +127,7 @@ func (fsm *stateMachine) onApply(t fsmApply) {
 			fsm.Update(e.data)
 		}
 		fsm.index, fsm.term = e.index, e.term
+		verifFSMApplied(fsm, e)
 	}
 
 	// process all entries from t.neHead if any
@@ -142,6 +144,7 @@ func (fsm *stateMachine) onApply(t fsmApply) {
 		}
 		if ne.isLogEntry() {
 			fsm.index, fsm.term = ne.index, ne.term
+			verifFSMApplied(fsm, ne.entry)
 		}
 		ne.reply(resp)
 	}
@@ -149,6 +152,7 @@ func (fsm *stateMachine) onApply(t fsmApply) {
 }
 
 func (fsm *stateMachine) onSnapReq(t fsmSnapReq) {
+	verifPointFSM(fsm, "fsm.beforeSnap")
 	if fsm.index == fsm.snaps.index {
 		t.reply(ErrNoUpdates)
 		return
@@ -182,6 +186,7 @@ func (fsm *stateMachine) onRestoreReq() error {
 		return opError(err, "FSM.Restore")
 	}
 	fsm.index, fsm.term = snap.meta.index, snap.meta.term
+	verifFSMRestored(fsm, snap.meta)
 	return nil
 }
 
@@ -220,6 +225,7 @@ func (r *Raft) onTakeSnapshot(t takeSnapshot) {
 	}
 	r.snapTakenCh = make(chan snapTaken, 1)
 	go func(index uint64, config Config) { // tracked by r.snapTakenCh
+		verifPointR(r, "snap.start")
 		meta, err := doTakeSnapshot(r.fsm, index, config)
 		if trace {
 			println(r, "doTakeSnapshot err:", err)
@@ -265,6 +271,7 @@ func doTakeSnapshot(fsm *stateMachine, index uint64, config Config) (snapshotMet
 
 func (r *Raft) onSnapshotTaken(t snapTaken) {
 	r.snapTakenCh = nil // clear in progress flag
+	verifSnapTaken(r, &t)
 
 	if t.err != nil {
 		if err, ok := t.err.(OpError); ok {
